@@ -45,8 +45,19 @@ def main(cases_fn, replay_fn=None, describe=None):
     L = ConL()
     if a.replay is not None:
         payload = json.load(sys.stdin if a.replay == '-' else open(a.replay))
+        import signal
+
+        class ReplayTimeout(Exception):
+            pass
+
+        def on_alarm_r(signum, frame):
+            raise ReplayTimeout()
+        signal.signal(signal.SIGALRM, on_alarm_r)
+        signal.setitimer(signal.ITIMER_REAL, float(os.environ.get('VERIF_CASE_TIMEOUT', '20')) * 2)
         try:
             out = replay_fn(L, payload)
+        except ReplayTimeout:
+            out = {'outcome': 'contract-failed', 'detail': 'the real function did not return within the replay time limit (non-termination?)', 'clause': 'raises:does-not-terminate'}
         except ContractFailure as cf:
             out = {'outcome': 'contract-failed', 'detail': str(cf), 'clause': cf.clause}
         except Exception as ex:
@@ -59,11 +70,35 @@ def main(cases_fn, replay_fn=None, describe=None):
     n = 0
     labels = []
     per_key = {}
+    import signal, resource
+    try:
+        resource.setrlimit(resource.RLIMIT_AS, (12 << 30, 12 << 30))
+    except Exception:
+        pass
+
+    class CaseTimeout(Exception):
+        pass
+
+    def on_alarm(signum, frame):
+        raise CaseTimeout()
+    signal.signal(signal.SIGALRM, on_alarm)
+    per_case = float(os.environ.get('VERIF_CASE_TIMEOUT', '20'))
     for (contract, func, args, label) in cases_fn(L, a.tier, a.seed):
         n += 1
         per_key[contract.key] = per_key.get(contract.key, 0) + 1
         try:
-            runtime_check(contract, func, args, L, stats)
+            signal.setitimer(signal.ITIMER_REAL, per_case)
+            try:
+                runtime_check(contract, func, args, L, stats)
+            finally:
+                signal.setitimer(signal.ITIMER_REAL, 0)
+        except (CaseTimeout, MemoryError) as ex:
+            k = (contract.key, 'raises:does-not-terminate' if isinstance(ex, CaseTimeout) else 'raises:MemoryError')
+            by_clause[k] = by_clause.get(k, 0) + 1
+            if by_clause[k] <= 2:
+                failures.append({'key': contract.key, 'clause': k[1], 'detail': 'no result within %.0f s (or memory exhausted)' % per_case, 'input': jsonable(label)})
+            if by_clause[k] >= 5:
+                break
         except ContractFailure as cf:
             k = (cf.key, cf.clause)
             by_clause[k] = by_clause.get(k, 0) + 1
